@@ -24,6 +24,7 @@ META = dict(
           "(T, BOUNDED: ground + 1 body, ground + 2-body chain, ground + 2 bodies both on Ground, 1 symbolic mobility per body, passes run in the transliterated driver order): multiplyByM(multiplyByMInv(v)) = v, "
           "multiplyByMInv(multiplyByM(x)) = x, ~x M y = ~y M x, calcKineticEnergy = 1/2 ~u M u with V_GB from the real velocity recursion, M entries = composite-rigid-body closed form "
           "(~H Mk H for one body; ~H_k R_k H_k and ~H_1 shift(R_2 H_2) with R from the real calcCompositeBodyInertias), ~u M u = sum m_k(|v_cm|^2 + w.Gc w) >= 0 for valid bodies. "
+          "The special node RBNodeLoneParticle (Translation on Ground, identity frames) satisfies the same multiplyByMInv / multiplyByM node lemmas with H = [0; 1] (M = m*1; uIndex != qIndex scenario). "
           "Over the reals (z3 QF_NRA). NOT decided: the induction over arbitrary trees, strict positive definiteness, calcM/calcMInv column assembly, prescribed motion, the mobilizer-specific H, "
           "position kinematics, float rounding."),
     note=("Assumes real arithmetic; trusts z3/cvc5, the transliterator + plumbing rule tables (logged per function), the symlib Vec/Mat shim and the node store / array-view shim of "
@@ -62,6 +63,10 @@ def main(ctx):
     for nb in (1, 2):
         unit(ctx, "tree%d.mass" % nb, lambda nb=nb: (DL.tree_roundtrips(B, nb, "tree%d.mass" % nb, "mass"), DL.tree_mass(B, nb, "tree%d.mass" % nb), DL.tree_psd(B, nb, "tree%d.mass" % nb)))
     unit(ctx, "fork2.mass", lambda: (DL.tree_roundtrips(B, 2, "fork2.mass", "mass", shape="fork"), DL.tree_mass(B, 2, "fork2.mass", shape="fork"), DL.tree_psd(B, 2, "fork2.mass", shape="fork")))
+    # the special node class RBNodeLoneParticle: M = m*1 for its three mobilities
+    unit(ctx, "lone.mm", lambda: DL.lone_id_lemmas(B, "lone.mm", zero_bias=True))
+    unit(ctx, "lone.mi", lambda: DL.lone_fd_lemmas(B, "lone.mi", zero_bias=True))
+    unit(ctx, "lone.tree", lambda: DL.lone_roundtrips(B, "lone.tree"))
     for k, v in B.drivers.items():
         if v < 1:
             ctx.undecide("driver %s: no level loop transliterated" % k)
@@ -78,7 +83,7 @@ def main(ctx):
         "the mobilizer-specific H_FM (C03/C05 cover it per mobilizer); H_PB_G is tied to H_FM here for the 8 frame specialisations, but whether each built-in mobilizer class is instantiated "
         "with flags that match its frames (RigidBodyNodeSpec_Derived.cpp factory) is not checked",
         "position kinematics: Phi = PhiMatrix(p_PB_G), Mk_G (calcJointIndependentKinematicsPos; C29 covers the mass-property operators)",
-        "LoneParticle and Weld nodes, Custom mobilizers; the State/cache/stage plumbing of the SimbodyMatterSubsystemRep drivers",
+        "Weld nodes, Custom mobilizers (the LoneParticle node: MInv/M node lemmas and round trips only, lone.*); the State/cache/stage plumbing of the SimbodyMatterSubsystemRep drivers",
         "dof = 4, 5 and, in the quick tier, dof = 6 (thorough tier only; Mat<N,N>::invert() for N > 3 (Lapack) modelled by its defining equations)",
         "float rounding; ill-conditioned or singular D"]
     nbd = len([o for o in ctx.obligations if o.bounded])
